@@ -75,6 +75,11 @@ func (vv *VarVal) Hierarchy() []Symbol {
 
 // Eval the object.
 func (vv *VarVal) Eval(s *Scope, depth int) Object {
+	// A symbol replaced by the package variable when a lambda was compiled
+	// still refers to a local binding if there is one when evaluated.
+	if value, has := s.localGet(vv.name); has {
+		return value
+	}
 	return vv.Value()
 }
 
